@@ -16,7 +16,7 @@ PROP = dict(
          'distinct by (scenario, mode, k, call-site of the first failed allocation). quick tier: every k for call sites outside crypto/math, every 5th k (offset by seed) inside crypto/math, every 8th sticky k, 24 random patterns per scenario.',
     assumptions=['single-threaded use', 'allocator failures only (no partial writes / signals)'],
     targets=[dict(name='c19_alloc_quick', src=SRC, wraps=WRAPS, env={'VERIF_DIR': '/verif'}, enumerate=True, args=['--c19-quick'],
-                  quick=dict(cases=0, secs=110, grace=120)),
+                  quick=dict(cases=0, secs=100, grace=120)),
              dict(name='c19_alloc', src=SRC, wraps=WRAPS, env={'VERIF_DIR': '/verif'}, enumerate=True,
                   thorough=dict(cases=0, secs=1100, grace=240))],
 )
